@@ -47,11 +47,32 @@ def dialogue_bytes(g, shape):
     return out
 
 
+BIGNUMS = [b"9999999999999", b"4294967296", b"2147483648", b"18446744073709551616"]
+_digits = __import__("re").compile(rb"\d+")
+
+
+def bignum_variants(g, limit=40):
+    """every message of the grammar with one of its decimal numbers replaced by a huge one (length and count fields are
+    where a parser sizes a buffer before it has seen the data): -> list of (prefix length, message bytes)"""
+    out = []
+    msgs = [(i, m) for i, m in enumerate(g["canon"])] + [(len(g["canon"]), t) for t in g["tokens"]]
+    for pre, m in msgs:
+        runs = list(_digits.finditer(m))[:3]
+        for r in runs:
+            for big in BIGNUMS:
+                out.append((pre, m[:r.start()] + big + m[r.end():]))
+                if len(out) >= limit:
+                    return out
+    return out
+
+
 def scenario(svc_key, shape, sid, rng, silent_ok=True):
     g = P.GRAMMAR[svc_key]
     svc = g.get("svc", svc_key)
     port = P.PORTS[svc]
     parts = dialogue_bytes(g, shape)
+    if shape.get("literal") is not None:
+        parts = list(g["canon"][:min(shape["prefix"], len(g["canon"]))]) + [shape["literal"]]
     ip = "10.%d.%d.%d" % (20 + sid // 60000, (sid // 250) % 240, 1 + sid % 250)
     steps = []
     if g.get("udp"):
@@ -83,7 +104,9 @@ def scenario(svc_key, shape, sid, rng, silent_ok=True):
         elif ending == "linger":
             steps.append({"op": "sleep", "ms": 1500})
             steps.append({"op": "close", "c": "c%d" % c})
-        # silent: the connection simply stays open (closed by the lab when the run ends)
+        elif ending == "silent":
+            # the peer stays connected and says nothing more: the lab keeps the socket open until the process ends
+            steps.append({"op": "leave", "c": "c%d" % c})
     return {"id": sid, "svc": svc_key, "steps": steps, "ending": ending}
 
 
@@ -113,12 +136,36 @@ def build(ck, tier, seed, silent_services=None):
         for pre in sorted({0, len(g["canon"]) // 2, len(g["canon"])}):
             core.append({"prefix": pre, "ops": [], "ending": "linger", "seg": "whole", "k": 1})
             core.append({"prefix": pre, "ops": [], "ending": "silent!", "seg": "whole", "k": 1})
+        for pre, msg in bignum_variants(g):
+            core.append({"prefix": pre, "ops": [], "literal": msg, "ending": "close", "seg": "whole", "k": 1})
         pick = core + rng.sample(small, min(per, len(small))) + rng.sample(sim, min(per // 2, len(sim)))
         for sh in pick:
             silent_ok = silent_services is None or key in silent_services
             if sh["ending"] == "silent" and rng.random() < 0.6:
                 sh = dict(sh, ending="close")          # keep the number of 30 s waits small
             scs.append(scenario(key, sh, len(scs), rng, silent_ok))
+    # shared ports: the peer is silent, lingers or leaves before / right after its first bytes (the server itself waits there)
+    for port, members in (P.SHARED_PORTS.items() if not only else []):
+        firsts = [b""] + [P.GRAMMAR[m]["canon"][0] for m in members if P.GRAMMAR.get(m, {}).get("canon")] + [b"\x00", b"zzzz\r\n"]
+        for first in firsts:
+            for ending in ("close", "linger", "silent", "shut"):
+                if ending == "silent" and silent_services is not None and first not in (b"", firsts[1]):
+                    continue
+                sid = len(scs)
+                ip = "10.%d.%d.%d" % (20 + sid // 60000, (sid // 250) % 240, 1 + sid % 250)
+                steps = [{"op": "open", "c": "c0", "laddr": "127.0.0.1:%d" % port, "raddr": "%s:3000" % ip}]
+                if first:
+                    steps.append({"op": "send", "c": "c0", "hex": first.hex(), "cuts": [], "gap_ms": 1})
+                    steps.append({"op": "sleep", "ms": 15})
+                if ending == "close":
+                    steps.append({"op": "close", "c": "c0"})
+                elif ending == "shut":
+                    steps += [{"op": "shut", "c": "c0"}, {"op": "recv", "c": "c0", "until": "eof", "timeout_ms": 6000}]
+                elif ending == "linger":
+                    steps += [{"op": "sleep", "ms": 1500}, {"op": "close", "c": "c0"}]
+                else:
+                    steps.append({"op": "leave", "c": "c0"})
+                scs.append({"id": sid, "svc": "shared:%d" % port, "steps": steps, "ending": ending})
     # datagram services: many handlers of the same service object at once (state shared between them must be guarded)
     for key in [k for k in keys if P.GRAMMAR[k].get("udp")]:
         g = P.GRAMMAR[key]
@@ -137,7 +184,7 @@ def build(ck, tier, seed, silent_services=None):
     return scs
 
 
-def run_child(lab, scs, label, settle_ms, idle_ms, par=24):
+def run_child(lab, scs, label, settle_ms, idle_ms, par=24, idle_max_ms=0):
     inp = os.path.join(lib.scratch(), "life-%s.ndjson" % label)
     out = os.path.join(lib.scratch(), "life-%s.out" % label)
     prog = os.path.join(lib.scratch(), "life-%s.progress" % label)
@@ -148,7 +195,7 @@ def run_child(lab, scs, label, settle_ms, idle_ms, par=24):
         if os.path.exists(f):
             os.remove(f)
     rc, so, se = lib.run_lab(lab, ["life", "-in", inp, "-out", out, "-config", cfg, "-progress", prog, "-par", str(par),
-                                   "-settle", str(settle_ms), "-idle", str(idle_ms)], timeout=900)
+                                   "-settle", str(settle_ms), "-idle", str(idle_ms), "-idlemax", str(idle_max_ms)], timeout=900)
     began, ended, marks = [], set(), []
     if os.path.exists(prog):
         for ln in open(prog):
@@ -176,7 +223,7 @@ def death_banner(stderr):
     return (m.group(1) if m else "no Go banner (rc only)")[:160], (where.group(1) if where else "unknown")
 
 
-def explore(lab, scs, label, settle_ms=5000, idle_ms=0, rerun_done=False):
+def explore(lab, scs, label, settle_ms=5000, idle_ms=0, rerun_done=False, idle_max_ms=0):
     """Runs all scenarios; when the child dies, bisects down to single culprits (each re-run alone in a fresh
     child) and continues without them. Returns (deaths, reports) where deaths = [(scenario, banner, site)]."""
     deaths, reports = [], []
@@ -185,7 +232,7 @@ def explore(lab, scs, label, settle_ms=5000, idle_ms=0, rerun_done=False):
     for round_ in range(12):
         if not todo:
             break
-        res = run_child(lab, todo, "%s-%d" % (label, round_), settle_ms, idle_ms)
+        res = run_child(lab, todo, "%s-%d" % (label, round_), settle_ms, idle_ms, idle_max_ms=idle_max_ms)
         if res["report"] is not None and res["rc"] == 0:
             reports.append(res["report"])
             break
